@@ -260,8 +260,36 @@ def deck_bytes(src):
         path = os.path.join(env.REPO, rel) if rel else os.path.join(os.path.dirname(pptx.__file__), "templates", "default.pptx")
         with open(path, "rb") as fh:
             b = fh.read()
-        _decks[src] = strip_core(b) if how == "stripped" else (reprefix_core(b) if how == "reprefixed" else (retype_core_rel(b) if how == "altrel" else b))
+        _decks[src] = {"stripped": strip_core, "reprefixed": reprefix_core, "altrel": retype_core_rel, "kwvalues": keywords_with_values}.get(how, lambda x: x)(b)
     return _decks[src]
+
+
+def keywords_with_values(data):
+    """The deck with per-language keywords in its core part: cp:keywords is the one core property the schema gives element
+    content (mixed: text and cp:value children, each with xml:lang)."""
+    import zipfile
+
+    zin = zipfile.ZipFile(io.BytesIO(data))
+    out = io.BytesIO()
+    with zipfile.ZipFile(out, "w", zipfile.ZIP_DEFLATED) as zf:
+        for n in zin.namelist():
+            blob = zin.read(n)
+            if n == "docProps/core.xml":
+                root = etree.fromstring(blob)
+                kw = root.find("{%s}keywords" % CP)
+                if kw is None:
+                    kw = etree.SubElement(root, "{%s}keywords" % CP)
+                for c in list(kw):
+                    kw.remove(c)
+                kw.set("{http://www.w3.org/XML/1998/namespace}lang", "en-US")
+                kw.text = "alpha"
+                v = etree.SubElement(kw, "{%s}value" % CP)
+                v.set("{http://www.w3.org/XML/1998/namespace}lang", "de-DE")
+                v.text = "beta"
+                v.tail = " gamma"
+                blob = etree.tostring(root, xml_declaration=True, encoding="UTF-8", standalone=True)
+            zf.writestr(n, blob)
+    return out.getvalue()
 
 
 def retype_core_rel(data):
@@ -729,7 +757,7 @@ def run_unit(unit, tier, seed, acc):
     elif kind == "history":
         corp = corpus_srcs()
         for i in range(unit["n"]):
-            src = ["default", "stripped", "reprefixed", "stripped", "corpus:" + r.choice(corp), "stripped:" + r.choice(corp), "altrel", "reprefixed:" + r.choice(corp), "default", "altrel:" + r.choice(corp)][i % 10]
+            src = ["default", "stripped", "reprefixed", "stripped", "corpus:" + r.choice(corp), "stripped:" + r.choice(corp), "altrel", "reprefixed:" + r.choice(corp), "kwvalues", "altrel:" + r.choice(corp)][i % 10]
             steps = [gen_step(r, r.choice(NAMES)) for _ in range(r.randint(4, 24))]
             for _ in range(r.randint(0, 2)):
                 steps.insert(r.randint(1, len(steps)), ["cycle"])
